@@ -188,34 +188,30 @@ def _systematic_renderings(ir):
 def plan(tier, seed, scale):
     cfgs = []
     nsh = 16
+    # exhaustive sub-spaces: (depth, #caps of EXH_CAPS, functions, captures per call, children per call, #focus forms)
     if tier == "quick":
         for i in range(nsh):
-            cfgs.append({"mode": "exh", "depth": 2, "wc": 2, "wch": 1, "part": i, "parts": nsh,
-                         "stride": 3})
+            cfgs.append({"mode": "exh", "space": (2, 6, ["f", "*"], 2, 1, 3), "part": i, "parts": nsh, "stride": 3})
         for i in range(nsh):
             cfgs.append({"mode": "hyp", "examples": int(600 * scale)})
     else:
         nsh = 32
+        for space in [(2, 6, ["f", "*"], 2, 1, 3), (2, 4, ["f"], 2, 2, 2), (3, 3, ["f"], 2, 1, 2),
+                      (3, 4, ["f", "*"], 1, 1, 3), (3, 3, ["f"], 1, 2, 2)]:
+            for i in range(nsh):
+                cfgs.append({"mode": "exh", "space": space, "part": i, "parts": nsh, "stride": 1})
         for i in range(nsh):
-            cfgs.append({"mode": "exh", "depth": 2, "wc": 2, "wch": 2, "part": i, "parts": nsh,
-                         "stride": 1})
-        for i in range(nsh):
-            cfgs.append({"mode": "exh3", "part": i, "parts": nsh})
-        for i in range(nsh):
-            cfgs.append({"mode": "hyp", "examples": int(40000 * scale)})
+            cfgs.append({"mode": "hyp", "examples": int(15000 * scale)})
     return cfgs
 
 
 def shard(cfg):
     rec = Recorder()
     out_viol = []
-    if cfg["mode"] in ("exh", "exh3"):
-        if cfg["mode"] == "exh":
-            it = G.enum_irs(cfg["depth"], EXH_CAPS, ["f", "*"], cfg["wc"], cfg["wch"], EXH_FOCUS)
-            stride = cfg.get("stride", 1)
-        else:
-            it = G.enum_irs(3, EXH_CAPS[:3], ["f"], 1, 1, EXH_FOCUS[:2])
-            stride = 1
+    if cfg["mode"] == "exh":
+        d, nc, fns, wc, wch, nf = cfg["space"]
+        it = G.enum_irs(d, EXH_CAPS[:nc], fns, wc, wch, EXH_FOCUS[:nf])
+        stride = cfg.get("stride", 1)
         k = 0
         complete = True
         for idx, ir in enumerate(it):
@@ -260,6 +256,7 @@ def shard(cfg):
 def coverage_extra(agg, tier):
     return {
         "exhaustive": False,
-        "explanation": "exhaustive sub-space: all IRs of depth<=2 over a 6-capture/3-focus alphabet "
-        "(quick: every 3rd, offset by seed; thorough: all, plus depth 3 over a smaller alphabet)",
+        "explanation": "exhaustive sub-spaces: all IRs of depth<=2 over a 6-capture/3-focus alphabet with <=2 "
+        "captures and <=1 child per call (quick: every 3rd, offset by seed; thorough: all, plus 2 children over "
+        "a 4-capture alphabet and three depth-3 spaces over smaller alphabets)",
     }
